@@ -220,6 +220,11 @@ class CallMixin(ExprMixin):
                 if v.ty.kind == "none":
                     return V.opaque_const("None")
                 return O.coerce(v, ty) if (v.parts or O.is_strlit(v) or v.ty.kind == "empty") else V.opaque_const("unit")
+            if v.ty.kind == "list" and ty.kind == "list" and v.ty.elem.kind == "opt" and v.ty.elem.args[0] == ty.elem:
+                qi = z3.Int(V.fresh_name("qi"))
+                self.oblige("safe", st, z3.ForAll([qi], z3.Implies(z3.And(0 <= qi, qi < V.list_len(v)), z3.Not(z3.Select(v.parts[0], qi)))),
+                            f"no element of list argument `{pname}` of {c.key} is None", node.lineno)
+                return Val(ty, v.parts[1:])
             if v.ty.kind in ("opt", "none") and ty.kind not in ("opt", "none"):
                 self.oblige("safe", st, z3.Not(O.is_none(v)), f"argument `{pname}` of {c.key} is not None (TypeError)", node.lineno)
                 st.assume(z3.Not(O.is_none(v)))
@@ -315,8 +320,11 @@ class CallMixin(ExprMixin):
         memo_key = None
         post_env = dict(env)
         modified_params = []
+        cell_mods = []
         for m in c.modifies:
-            self.havoc_target(m, env, post_env, post, c, modified_params)
+            cm = self.havoc_target(m, env, post_env, post, c, modified_params)
+            if cm is not None:
+                cell_mods.append(cm)
         if recv == "new":
             result = new_ref
         elif pure_result is not None:
@@ -357,12 +365,27 @@ class CallMixin(ExprMixin):
             yield Raise("AnyException", line, f"anonymous exception from {c.key}"), se
         try:
             ev = SpecEval(self, post, pre, post_env, facts, c.defs, env)
-            ens = [ev.clause(t) for t in list(c.ensures) + list(c.ghost_ensures)]
+            ens = [ev.clause(t) for t in list(c.ensures) + list(c.ghost_ensures) + list(c.trusted_ensures)]
+            if c.trusted_ensures:
+                self.used_assumed["trusted clauses of " + c.key] = self.used_assumed.get("trusted clauses of " + c.key, 0) + 1
         except SpecError as exc:
             raise UnsupportedError(f"postcondition of {c.key}: {exc}")
         post.assume(*facts)
         post.assume(*ens)
         post.assume(*normal_extra)
+        if self.fold_seen and cell_mods:
+            from .speceval import fold_facts_point_update
+            whole = set()
+            for m_ in c.modifies:
+                ps_ = m_.split(".")
+                if len(ps_) == 2 and ps_[0] in S.RECORDS and ps_[0] not in env:
+                    r_, _t = S.lookup_field(ps_[0], ps_[1])
+                    if r_ is not None:
+                        whole.add(S.fkey(r_, ps_[1]))
+            keys_ = [S.fkey(r, f) for r, f, _ in cell_mods]
+            for (rec_, fld_, ref_), k_ in zip(cell_mods, keys_):
+                if k_ not in whole and keys_.count(k_) == 1:      # the field map changed at exactly this cell
+                    post.assume(*fold_facts_point_update(self, rec_, fld_, ref_, pre, post))
         self.wf(post, result)
         for name in modified_params:
             self.wf(post, post_env[name])
@@ -422,6 +445,7 @@ class CallMixin(ExprMixin):
             raise UnsupportedError(f"modifies {m}: unknown field {parts[-1]}")
         st.heap.write(rec, parts[-1], fty, cur.t, V.fresh(fty, "post_" + parts[-1]))
         self.note_heap_write(st, rec, parts[-1], cur.t)
+        return (rec, parts[-1], cur.t)
 
     def writeback(self, modified_params, post_env, argkey, arg_nodes, recv_node, st, node):
         for name in modified_params:
@@ -753,10 +777,17 @@ class CallMixin(ExprMixin):
                 yield vals, s
                 continue
             v = vals[0]
+            if v.ty.kind in ("opt", "none"):
+                self.oblige("safe", s, z3.Not(O.is_none(v)), "int() of a non-None value (TypeError)", node.lineno)
+                s.assume(z3.Not(O.is_none(v)))
+                v = O.strip_opt(v)
             if v.ty.kind == "int":
                 yield v, s
             elif v.ty.kind == "bool":
                 yield V.mk_int(z3.If(v.t, 1, 0)), s
+            elif v.ty.kind in ("opaque", "name"):
+                # int(text): parsing is not modelled (ValueError on malformed text is outside the subset)
+                yield apply_uf("int_of_text", T.INT, [v]), s
             else:
                 raise UnsupportedError(f"int() of {v.ty} at line {node.lineno}")
 
@@ -814,6 +845,11 @@ class CallMixin(ExprMixin):
             yield V.EMPTY_DICT, st
             return
         raise UnsupportedError("dict(...) with arguments")
+
+    def bi_OrderedDict(self, node, st):
+        if node.args or node.keywords:
+            raise UnsupportedError("OrderedDict(...) with arguments")
+        yield V.EMPTY_DICT, st
 
     def bi_bool(self, node, st):
         for vals, s in self._args(node, st):
@@ -1043,6 +1079,13 @@ class CallMixin(ExprMixin):
             new = st.heap.key_arrays(rec, f, fty)
             for a_new, a_old in zip(new, old_arrays[(str(rec), f)]):
                 st.assume(z3.ForAll([r], z3.Implies(not_new, z3.Select(a_new, r) == z3.Select(a_old, r))))
+        # the new objects are freshly allocated
+        from .state import root_record
+        a_old = st.alloc_map(c.returns.name)
+        a_new = z3.Const(V.fresh_name("A_" + root_record(c.returns.name)), z3.ArraySort(T.RefSort, z3.BoolSort()))
+        st.assume(z3.ForAll([i], z3.Implies(z3.And(0 <= i, i < n), z3.And(z3.Not(z3.Select(a_old, V.list_get(out, i).t)), z3.Select(a_new, V.list_get(out, i).t)))))
+        st.assume(z3.ForAll([r], z3.Implies(z3.Select(a_old, r), z3.Select(a_new, r))))
+        st.alloc[root_record(c.returns.name)] = a_new
         self.last_call_fresh = True
         yield out, st
 
